@@ -388,6 +388,7 @@ type cfgCase struct {
 	lastPath, lastOp string
 	held             []io.Closer   // foreign sockets occupying an address for the duration of one load
 	failedAddrs      []cfgListener // addresses whose bind failed earlier: later configurations reuse them
+	served           *servedHandshake // the latest handshake the server authenticated (for replays)
 	retry, revert    *cfgFile      // after a bind that failed because of a foreign socket: the same file again, then back
 	saltN            uint64
 	dead             bool
@@ -436,7 +437,16 @@ func (c *cfgCase) genFresh() *cfgFile {
 		nk := r.Intn(5)
 		for j := 0; j < nk; j++ {
 			k := c.genKey()
-			if j > 0 && r.Chance(20) { // same cipher and secret again: same spelling, another spelling, another id
+			if j > 0 && r.Chance(15) { // the same secret under ANOTHER cipher (also one with the same salt and tag sizes): a different key
+				k = s.Keys[r.Intn(len(s.Keys))]
+				k.ID = Pick(r, cfgIDs)
+				if ci := canonCipher(k.Cipher); ci >= 0 {
+					k.Cipher = Pick(r, cipherAliases[specCiphers[(ci+1+r.Intn(len(specCiphers)-1))%len(specCiphers)].name])
+					if ci <= 1 && r.Chance(60) {
+						k.Cipher = Pick(r, cipherAliases[specCiphers[1-ci].name]) // chacha20 <-> aes-256-gcm
+					}
+				}
+			} else if j > 0 && r.Chance(20) { // same cipher and secret again: same spelling, another spelling, another id
 				k = s.Keys[r.Intn(len(s.Keys))]
 				if r.Bool() {
 					k.ID = Pick(r, cfgIDs)
@@ -793,6 +803,7 @@ func dialFrom(network, addr string) (net.Conn, error) {
 }
 
 type tcpProbeRes struct {
+	wire    []byte
 	refused bool
 	local   string
 	echo    []byte
@@ -809,6 +820,7 @@ func (c *cfgCase) probeTCP(addr string, key *specKey, salt []byte, token string,
 	res := tcpProbeRes{local: conn.LocalAddr().String()}
 	w := newSpecStreamWriter(key, salt)
 	wire := append(append([]byte{}, salt...), w.chunk(append(socksAddrV4(c.tg.ip, port), []byte(token)...))...)
+	res.wire = wire
 	conn.SetDeadline(time.Now().Add(5 * time.Second))
 	if _, err := conn.Write(wire); err != nil {
 		res.err = err
@@ -874,11 +886,78 @@ func (c *cfgCase) authTCP(addr string, key *specKey) (string, bool, bool) {
 	if opens != 1 {
 		c.out.Oracle("C12", "connection %s to %s was reported opened %d times", res.local, addr, opens)
 	}
+	if authed {
+		c.served = &servedHandshake{wire: res.wire, ck: clientKey{canonCipher(key.c.name), key.secret}, addr: addr, id: id}
+	}
 	want := token + "|tail"
 	if authed != (string(res.echo) == want) {
 		c.out.Oracle("C09", "listener %s: server reports authenticated=%v but the client received %q (expected %q iff authenticated)", addr, authed, res.echo, want)
 	}
 	return id, authed, false
+}
+
+type servedHandshake struct {
+	wire []byte
+	ck   clientKey
+	addr string
+	id   string // the access key (its ID) the handshake was attributed to
+}
+
+// replayServed: the exact bytes of a handshake the server has already served, presented again on a
+// listener whose service lists the key (another service of the configuration, or the configuration
+// loaded since): the one replay history of the process must refuse it
+func (c *cfgCase) replayServed(why string) {
+	if c.served == nil || c.cur == nil || c.dead {
+		return
+	}
+	order, owned := c.cur.owned()
+	var cands []string
+	for _, lk := range order {
+		if !strings.HasPrefix(lk, "tcp/") {
+			continue
+		}
+		// the history remembers (access key ID, salt): the same secret configured under ANOTHER ID is
+		// another access key, and a replay there is a first presentation
+		if id, ok := expectID(owned[lk], c.served.ck); ok && id == c.served.id {
+			cands = append(cands, lk[4:])
+		}
+	}
+	if len(cands) == 0 {
+		return
+	}
+	addr := Pick(c.r, cands)
+	c.events()
+	conn, err := dialFrom("tcp", dialAddr(addr))
+	if err != nil {
+		return
+	}
+	defer conn.Close()
+	local := conn.LocalAddr().String()
+	conn.SetDeadline(time.Now().Add(5 * time.Second))
+	conn.Write(c.served.wire)
+	conn.(*net.TCPConn).CloseWrite()
+	io.Copy(io.Discard, conn)
+	authed, closed := false, false
+	for dl := time.Now().Add(3 * time.Second); !closed && time.Now().Before(dl) && !c.dead; time.Sleep(2 * time.Millisecond) {
+		for _, e := range c.events() {
+			if e.remote != local {
+				continue
+			}
+			if e.kind == "tcpauth" {
+				authed = true
+			}
+			if e.kind == "tcpclosed" {
+				closed = true
+			}
+		}
+	}
+	res := "refused"
+	if authed {
+		res = "served"
+		c.out.Oracle("C07", "a handshake the server had already served on %s was served again when replayed on %s (%s): the replay history is not shared across listeners, services and reloads", c.served.addr, addr, why)
+	}
+	c.out.Op("cfg replay", res+" # "+why+" "+c.served.addr+" -> "+addr)
+	c.out.Stat("replay."+why, 1)
 }
 
 // authUDP: same over UDP
@@ -1432,8 +1511,14 @@ func (c *cfgCase) step(first bool) {
 		c.finishHammer(hm, hmLK, ft.kind)
 	}
 
+	if ok && hm == nil && !first {
+		c.replayServed("after-reload")
+	}
 	c.opBound()
 	c.probeAll(c.keyPool(c.cur, prev, next))
+	if c.r.Chance(50) {
+		c.replayServed("other-listener")
+	}
 
 	if len(relays) > 0 {
 		broken := 0
